@@ -217,6 +217,19 @@ func StreamResponseBody(ctx *fiber.Ctx, rdr io.ReadCloser, bodysize int) {
 	ctx.Context().SetBodyStream(rdr, bodysize)
 }
 
+// HasDotSegment reports whether the "/" separated path contains a "." or
+// ".." element. Bucket names and object keys end up as file system paths in
+// the backends, where such elements would be resolved instead of being
+// treated as part of an opaque name.
+func HasDotSegment(p string) bool {
+	for _, el := range strings.Split(p, "/") {
+		if el == "." || el == ".." {
+			return true
+		}
+	}
+	return false
+}
+
 func IsValidBucketName(bucket string, debug bool) bool {
 	if len(bucket) < 3 || len(bucket) > 63 {
 		debuglogger.Logf("bucket name length should be in 3-63 range, got: %v\n", len(bucket))
